@@ -698,3 +698,71 @@ Example C01_reserve_pd_overlap_nonvacuous :
   reg_step Repaired st (RReserve FPD (RP (Pfx (Some (V6, pd_net ex_pd + 2 ^ 100)) 72 128)) 1 None) = Some (st, ROOk).
 Proof. vm_compute. repeat split; reflexivity. Qed.
 Print Assumptions C01_reserve_pd_overlap_nonvacuous.
+
+(* ================================================================ profile order over the observable trace *)
+(* [pool_full v pfs evs f k]: every assignable key of the allocator configured under k is held according to the
+   ledger of the events evs (vacuous when no allocator was created for k).  The two statements below mention only
+   the configuration (pools_of (reg_init ..), cfg_vrf) and the ledger of the EARLIER observable events. *)
+Theorem C01_profile_order_trace :
+  forall pfs ks st evs pre f pf ov vrf s obs k o post,
+    reg_run_from Repaired (reg_init Repaired pfs) ks = Some (st, evs) ->
+    evs = pre ++ (RAlloc f pf ov vrf s obs, ROAns k o) :: post ->
+    (ov <> 0 /\ k = (pf, ov)) \/
+    (exists l1 l2, pools_of (reg_init Repaired pfs) f pf = l1 ++ k :: l2 /\ cfg_vrf f k pfs = vrf /\
+       (ov = 0 \/ pool_full Repaired pfs pre f (pf, ov)) /\
+       forall k', In k' l1 -> cfg_vrf f k' pfs = vrf -> pool_full Repaired pfs pre f k').
+Proof. exact profile_order_trace. Qed.
+Print Assumptions C01_profile_order_trace.
+
+Theorem C01_profile_exhausted_trace :
+  forall pfs ks st evs pre f pf ov vrf s obs post,
+    reg_run_from Repaired (reg_init Repaired pfs) ks = Some (st, evs) ->
+    evs = pre ++ (RAlloc f pf ov vrf s obs, ROExhausted) :: post ->
+    (ov = 0 \/ pool_full Repaired pfs pre f (pf, ov)) /\
+    forall k, In k (pools_of (reg_init Repaired pfs) f pf) -> cfg_vrf f k pfs = vrf -> pool_full Repaired pfs pre f k.
+Proof. exact profile_exhausted_trace. Qed.
+Print Assumptions C01_profile_exhausted_trace.
+
+(* ================================================================ no registry *)
+(* GetGlobalRegistry() == nil (before InitGlobalRegistry / after ResetGlobalRegistry) and nil *Registry receivers:
+   nothing is ever handed out, no reservation is ever refused *)
+Theorem C01_nil_registry_hands_out_nothing :
+  forall k o, reg_step_nil k = Some o -> (forall kk oo, o <> ROAns kk oo) /\ o <> ROReserved /\ o <> ROOverlap.
+Proof. exact reg_step_nil_spec. Qed.
+Print Assumptions C01_nil_registry_hands_out_nothing.
+
+(* ResolveV4 with whatever registry there is: the offered address is staked for the caller (or unmanaged), or
+   there is no registry and it is exactly the address the context brought - never an invented one.  This makes
+   the "a registry exists" premise of C01_resolve4_stakes_its_answer explicit. *)
+Theorem C01_resolve4_stakes_or_no_registry :
+  forall v r s cx obs wobs r' cx' a pool,
+    resolve4_ctx_opt v r s cx obs wobs = Some (r', cx', R4 a pool) ->
+    match r with
+    | Some st =>
+        exists st', r' = Some st' /\
+        ((exists k ac ps' a', (a' = a \/ a' = unmap a) /\
+            assoc_find key_eqb k (r_allocs st' F4) = Some (ac, ps') /\ lm_lookup a' (leases ps') = Some s) \/
+         (c4_addr cx = Some a /\ st' = st /\
+          forall e, In e (r_allocs st F4) -> acontains v (fst (snd e)) (RA (Some a)) = false))
+    | None => r' = None /\ c4_addr cx = Some a /\ pool = None /\ cx' = cx
+    end.
+Proof. exact resolve4_opt_staked. Qed.
+Print Assumptions C01_resolve4_stakes_or_no_registry.
+
+Example C01_no_registry_nonvacuous :
+  resolve4_ctx_opt Repaired None 1 {| c4_pf := 1; c4_ov := 0; c4_vrf := 0; c4_addr := None; c4_pool := None |} None None
+    = Some (None, {| c4_pf := 1; c4_ov := 0; c4_vrf := 0; c4_addr := None; c4_pool := None |}, R4Nil) /\
+  (exists cx, resolve4_ctx_opt Repaired None 1 {| c4_pf := 1; c4_ov := 0; c4_vrf := 0; c4_addr := Some (V4, 30); c4_pool := None |} None None
+    = Some (None, cx, R4 (V4, 30) None)) /\
+  reg_step_opt Repaired None (RAlloc F4 1 0 0 1 None) = Some (None, ROExhausted).
+Proof. vm_compute. repeat split; try reflexivity. eexists; reflexivity. Qed.
+Print Assumptions C01_no_registry_nonvacuous.
+
+(* the list C01_profile_order_trace speaks about, from the configuration: with one pool list per (family,
+   profile name) - which the two Go maps of profiles guarantee - it is that profile's pools in ascending
+   priority (stable insertion sort) for IPv4 and in configuration order for IA_NA and PD *)
+Theorem C01_walked_list_is_configured :
+  forall v pfs pf, NoDup (map (fun p => (rf_fam p, rf_name p)) pfs) -> In pf pfs ->
+    pools_of (reg_init v pfs) (rf_fam pf) (rf_name pf) = ordered_keys pf.
+Proof. exact reg_init_pools. Qed.
+Print Assumptions C01_walked_list_is_configured.
